@@ -30,6 +30,9 @@ def main(argv):
     try:
         if replay:
             rec = json.load(open(replay))
+            if isinstance(rec["case"], dict) and rec["case"].get("prelude"):
+                # a violation that needs an earlier request in the same process (state leaks): that request is replayed first
+                mod.replay(ctx, rec["case"]["prelude"])
             mod.replay(ctx, rec["case"])
         else:
             mod.run(ctx)
